@@ -15,7 +15,7 @@ import (
 // second RDG_IN_DATA request with the connection id of a tunnel that already
 // has an inbound channel must not get a packet loop of its own.
 func c01DoubleIn(rep *Report) {
-	for _, when := range []string{"before-first-byte-of-in1", "after-preamble-of-in1", "after-session-of-in1"} {
+	for _, when := range []string{"before-first-byte-of-in1", "after-preamble-of-in1", "after-session-of-in1", "after-in1-closed-its-channel", "after-in1-sent-a-protocol-error", "after-in1-dropped"} {
 		cfg := c01Cfg(true, false, "legacy")
 		var dials, okResps int
 		var in2Accepted bool
@@ -66,6 +66,22 @@ func c01DoubleIn(rep *Report) {
 					in1.SendSegment(p)
 					vsched.WaitIdle()
 				}
+			case "after-in1-closed-its-channel", "after-in1-sent-a-protocol-error", "after-in1-dropped":
+				// the tunnel has ended (its connection id is still remembered): a lone new inbound request for it
+				// gets no packet loop, no answers and no connection
+				session(in1)
+				switch when {
+				case "after-in1-closed-its-channel":
+					in1.SendSegment(tsgu.Data([]byte("first")))
+					vsched.WaitIdle()
+					in1.SendSegment(tsgu.CloseChannel())
+				case "after-in1-sent-a-protocol-error":
+					in1.SendSegment(tsgu.Handshake(1, 0, 0, tsgu.ExtAuthPAA))
+				default:
+					in1.In.Close()
+				}
+				vsched.WaitIdle()
+				in2 = openIn("in-2")
 			default:
 				session(in1)
 				in2 = openIn("in-2")
@@ -87,8 +103,12 @@ func c01DoubleIn(rep *Report) {
 		}
 		x.Finish()
 		rep.outcome(fmt.Sprintf("legacy second inbound %s: dials=%d ok=%d in2accepted=%v", when, dials, okResps, in2Accepted))
-		if dials > 1 || okResps > 4 {
-			rep.violate("C01/second-packet-loop-on-one-legacy-tunnel/"+when, fmt.Sprintf("second RDG_IN_DATA with the same connection id %s: %d backend connections, %d success responses (one session gives 1 and 4), second request accepted=%v", when, dials, okResps, in2Accepted), map[string]any{"noreplay": true})
+		wantOK := 4
+		if when == "after-in1-closed-its-channel" {
+			wantOK = 5 // the close request of the first session is answered with success too
+		}
+		if dials > 1 || okResps > wantOK {
+			rep.violate("C01/second-packet-loop-on-one-legacy-tunnel/"+when, fmt.Sprintf("second RDG_IN_DATA with the same connection id %s: %d backend connections, %d success responses (one session gives 1 and %d), second request accepted=%v", when, dials, okResps, wantOK, in2Accepted), map[string]any{"noreplay": true})
 		}
 	}
 }
